@@ -6,6 +6,8 @@ import (
 	"github.com/ethereum/go-ethereum/common"
 	"github.com/ethereum/go-ethereum/core/vm"
 
+	cpcabi "github.com/EscanBE/evermint/v12/x/cpc/abi"
+
 	"verifharness/vh"
 )
 
@@ -156,4 +158,30 @@ func sequencerCall(revert bool, t1 common.Address, d1 []byte, t2 common.Address,
 	out = append(out, d1...)
 	out = append(out, t2.Bytes()...)
 	return append(out, d2...)
+}
+
+// peekerCode: a contract that, in ONE message, lets an inner frame of itself burn some of its own tokens through the
+// precompile, ask the precompile for totalSupply() and REVERT, and then asks for totalSupply() again from the outer frame,
+// returning that second answer. Call data (outer) = token address (20 bytes) || amount (32 bytes); the inner frame is a
+// call to itself with one extra leading byte.
+func peekerCode() []byte {
+	selSupply := cpcabi.Erc20CpcInfo.ABI.Methods["totalSupply"].ID
+	selBurn := cpcabi.Erc20CpcInfo.ABI.Methods["burn"].ID
+	a := vh.NewAsm()
+	a.Op(vm.CALLDATASIZE).PushU(53).Op(vm.EQ).JumpI("inner")
+	// outer: mem[0] = 0x01, mem[1..53) = call data
+	a.PushU(1).PushU(0).Op(vm.MSTORE8)
+	a.PushU(52).PushU(0).PushU(1).Op(vm.CALLDATACOPY)
+	a.PushU(0).PushU(0).PushU(53).PushU(0).PushU(0).Op(vm.ADDRESS, vm.GAS, vm.CALL, vm.POP)
+	a.MStoreBytes(0x80, selSupply)
+	a.PushU(32).PushU(0xa0).PushU(4).PushU(0x80).PushU(0).Op(vm.CALLDATALOAD).PushU(96).Op(vm.SHR).Op(vm.GAS, vm.STATICCALL, vm.POP)
+	a.PushU(32).PushU(0xa0).Op(vm.RETURN)
+	a.Label("inner")
+	a.MStoreBytes(0x100, selBurn)
+	a.PushU(21).Op(vm.CALLDATALOAD).PushU(0x104).Op(vm.MSTORE)
+	a.PushU(0).PushU(0).PushU(36).PushU(0x100).PushU(0).PushU(1).Op(vm.CALLDATALOAD).PushU(96).Op(vm.SHR).Op(vm.GAS, vm.CALL, vm.POP)
+	a.MStoreBytes(0x80, selSupply)
+	a.PushU(32).PushU(0xa0).PushU(4).PushU(0x80).PushU(1).Op(vm.CALLDATALOAD).PushU(96).Op(vm.SHR).Op(vm.GAS, vm.STATICCALL, vm.POP)
+	a.PushU(0).PushU(0).Op(vm.REVERT)
+	return a.Bytes()
 }
